@@ -575,6 +575,8 @@ case('C20', "C20-seed6", "mutant", 'seeded (round 3): Bug-fix style edit of OCID
 # thirty unexported functions the rules know by name, renamed throughout (resolved by role, internal/rules/roles.go)
 for _p in ["C%02d" % i for i in range(1, 21)]:
     case(_p, _p + "-b-rename", "benign", "thirty unexported anchor functions renamed throughout the module", patch="selftest/variants/all-b-rename.diff")
+for _p in ["C01", "C02", "C09", "C14", "C15"]:
+    case(_p, _p + "-b-fieldrename", "benign", "nine unexported fields that rules name renamed", patch="selftest/variants/all-b-fieldrename.diff")
 for _p in ["C03", "C04", "C09", "C11", "C12", "C13", "C14", "C16", "C20"]:
     case(_p, _p + "-b-typerename", "benign", "six unexported types that rules name renamed throughout the module", patch="selftest/variants/all-b-typerename.diff")
 
